@@ -115,7 +115,7 @@ def make_table(rng):
         ch = next(c for c in "WXYZwxyz" if c not in used)
         for r in extra:
             r["chain"] = ch
-            r["occ"], r["b"] = 1.0, 0.0
+            r["occ"], r["b"], r["model"] = 1.0, 0.0, 1
         rows += extra
     if len({r["chain"] for r in rows}) == 1 and rng.random() < 0.2:
         pass
